@@ -221,11 +221,16 @@ func (r *Reader) NextFrame() (hdr ws.Header, err error) {
 	if r.fragmented() {
 		if hdr.OpCode.IsControl() {
 			if cb := r.OnIntermediate; cb != nil {
-				err = cb(hdr, frame)
+				err = cb(hdr, payloadReader{frame, &r.raw})
 			}
 			if err == nil {
 				// Ensure that src is empty.
 				_, err = io.Copy(ioutil.Discard, &r.raw)
+			}
+			if err == nil && r.raw.N != 0 {
+				// Source ended in the middle of the control frame
+				// payload: what the handler saw was incomplete.
+				err = io.ErrUnexpectedEOF
 			}
 			return hdr, err
 		}
@@ -347,6 +352,23 @@ func (r *Reader) readHeader(in io.Reader) (h ws.Header, err error) {
 	}
 
 	return h, nil
+}
+
+// payloadReader reads the payload of a single frame for a frame handler. It
+// reports io.ErrUnexpectedEOF instead of io.EOF when the source ends before
+// the announced payload length is reached, so that a handler can not mistake
+// a truncated payload for a complete one.
+type payloadReader struct {
+	r   io.Reader
+	raw *io.LimitedReader
+}
+
+func (p payloadReader) Read(b []byte) (n int, err error) {
+	n, err = p.r.Read(b)
+	if err == io.EOF && p.raw.N != 0 {
+		err = io.ErrUnexpectedEOF
+	}
+	return n, err
 }
 
 // NextReader prepares next message read from r. It returns header that
